@@ -245,9 +245,9 @@ def work_e2e(case):
             try:
                 b = e['enc'].process(e2e_message(ids, subsets, comp)).serialized_bytes
                 td = e['dec'].process(b).template_data.value
-                out.append(('ok', repr(td.decoded_values_all_subsets),
+                out.append(('ok', [list(v) for v in td.decoded_values_all_subsets],
                             [[str(d) for d in ds] for ds in td.decoded_descriptors_all_subsets],
-                            repr([sorted(l.items()) for l in td.bitmap_links_all_subsets])))
+                            [sorted(l.items()) for l in td.bitmap_links_all_subsets]))
             except Exception as ex:
                 out.append(('err', lib.err_code(ex), type(ex).__name__, str(ex)[:120]))
     return out
@@ -378,7 +378,7 @@ def run_columns(ctx, cases, tag, procs):
             else:
                 ctx.violation({'kind': 'col-%s-predicate' % kind, 'case': case, 'impl': impl, 'model': model},
                               'column %s w=%d: compressed %s uncompressed %s' % (show_opt(vals), w, r['dec'], r['unc']))
-        ctx.compare(case, impl, model, kind='col-%s-model' % kind, holds=lambda p=pred: p)
+        ctx.compare(case, impl, model, kind='col-%s-model' % kind, holds=lambda p=(pred or onebit): p)
         if m_spec is not None and 1 <= w <= 64 and m_spec != m_dec:
             ctx.violation({'kind': 'spec-reader-model', 'case': case, 'model': mo, 'no_failing_input': True,
                            'broken': 'extracted spec_dec_col_num and dec_col_num differ (theorem spec_reader_agrees)'})
@@ -527,7 +527,7 @@ def run_scaled_equal(ctx):
 # --------------------------------------------------------------------------
 def run_streams(ctx, procs):
     rng = ctx.rng
-    cases, lines = [], []
+    cases = []
     for _ in range(ctx.n(1500, 30000)):
         kind = rng.choice(['num', 'num', 'cf', 'str'])
         n = rng.choice([0, 1, 2, 3, 5, 9])
@@ -560,6 +560,12 @@ def run_streams(ctx, procs):
         bits = pad8(bits)
         desc_id = STR_ID if kind == 'str' else NUM_ID
         cases.append((kind, w, n, bits, desc_id, dn))
+    check_streams(ctx, cases, procs)
+
+
+def check_streams(ctx, cases, procs):
+    lines = []
+    for (kind, w, n, bits, desc_id, dn) in cases:
         if kind == 'num':
             lines.append('decnum %d %d %s' % (w, n, bits_str(bits)))
         elif kind == 'cf':
@@ -640,6 +646,11 @@ def run_strings(ctx, procs, corpus_cols=()):
         else:
             vals = [rng.choice([None, b'\0' * nb, b'\xff' * nb, word(), word()]) for _ in range(n)]
         cols.append((nb, vals))
+    check_strings(ctx, cols, procs)
+
+
+def check_strings(ctx, cols, procs):
+    rng = ctx.rng
     cases = []
     for nb, vals in cols:
         as_text = rng.random() < 0.5      # JSON input arrives as text; bytes are accepted too
@@ -815,7 +826,10 @@ def gen_e2e(ctx):
 
 
 def run_e2e(ctx, procs, corpus_cases=()):
-    cases = list(corpus_cases) + gen_e2e(ctx)
+    run_e2e_cases(ctx, list(corpus_cases) + gen_e2e(ctx), procs)
+
+
+def run_e2e_cases(ctx, cases, procs):
     outs = pmap(work_e2e, [(ids, subsets) for (_, ids, subsets) in cases], procs)
     for (name, ids, subsets), (c, u) in zip(cases, outs):
         key = ('e2e', tuple(ids), repr(subsets))
@@ -833,23 +847,31 @@ def run_e2e(ctx, procs, corpus_cases=()):
             ctx.dist['e2e-identical'] += 1
             ctx.sample({'e2e': name, 'template': ids, 'n_subsets': len(subsets), 'decoded_equal': True}, limit=7)
             continue
-        # classify the difference
-        flat_has_1bit_missing = name in ('flags-1bit',) or (name == 'numeric-201' and ids[0] == 201000 + 128 - 14)
-        any_missing = any(v is None for row in subsets for v in row)
-        equal_nul = False
-        for j in range(len(subsets[0])):
-            col = [row[j] for row in subsets]
-            if isinstance(col[0], str) and col.count(col[0]) == len(col) and col[0] != '' and set(col[0]) == {'\0'}:
-                equal_nul = True
-        if c[2] == u[2] and c[3] == u[3] and flat_has_1bit_missing and any_missing and not equal_nul:
-            ctx.violation({'kind': 'onebit-missing', 'width': 1, 'has_missing': True, 'case': case,
-                           'what': 'end to end: compressed %s uncompressed %s' % (c[1][:100], u[1][:100])})
-        elif c[2] == u[2] and c[3] == u[3] and equal_nul and not flat_has_1bit_missing:
-            ctx.violation({'kind': 'str-equal-nul', 'decoder': 'original', 'case': case,
-                           'what': 'end to end: compressed %s uncompressed %s' % (c[1][:100], u[1][:100])})
+        # classify the difference by content: which decoded values differ, and how
+        d18, d13, other = 0, 0, 0
+        if c[2] != u[2] or c[3] != u[3] or [len(x) for x in c[1]] != [len(x) for x in u[1]]:
+            other += 1
         else:
-            ctx.violation({'kind': 'e2e-not-transparent', 'case': case, 'compressed': c, 'uncompressed': u},
-                          'template %s: compressed %s uncompressed %s' % (ids, c[1][:100], u[1][:100]))
+            for i, (cv, uv) in enumerate(zip(c[1], u[1])):
+                for j, (x, y) in enumerate(zip(cv, uv)):
+                    if x == y:
+                        continue
+                    label = c[2][i][j]
+                    onebit = label == '031031' or (label == '007001' and 201114 in ids)
+                    if onebit and x is None and y in (1, -399):
+                        d18 += 1      # uncompressed reads the missing 1-bit field as the value 1
+                    elif x == b'' and isinstance(y, bytes) and y and set(y) == {0}:
+                        d13 += 1      # compressed reads equal NUL strings as empty strings
+                    else:
+                        other += 1
+        summary = 'end to end %s: compressed %s uncompressed %s' % (ids, repr(c[1])[:100], repr(u[1])[:100])
+        if other:
+            ctx.violation({'kind': 'e2e-not-transparent', 'case': case, 'compressed': c, 'uncompressed': u}, summary)
+            continue
+        if d18:
+            ctx.violation({'kind': 'onebit-missing', 'width': 1, 'has_missing': True, 'case': case, 'what': summary})
+        if d13:
+            ctx.violation({'kind': 'str-equal-nul', 'decoder': 'original', 'case': case, 'what': summary})
 
 
 # --------------------------------------------------------------------------
@@ -949,24 +971,67 @@ def run(ctx):
     ]
 
 
+def parse_opt(tok):
+    return [] if tok == '-' else [None if t == 'N' else int(t) for t in tok.split(',')]
+
+
 def replay(ctx, rec):
+    """re-run one stored case on the implementation and the model; the record's
+    classification is recomputed by the same code path as in a normal run"""
     case = rec.get('case', {})
-    if 'cmd' in case:
-        line = case['cmd']
-        mo = lib.run_model([line])[0]
-        return {'cmd': line, 'model': mo, 'note': 'model side only; rerun ./check C05 for the implementation side'}
+    before = len(ctx.violations)
     if 'template' in case:
-        out = work_e2e((case['template'], case['subsets']))
-        same = out[0] == out[1]
-        if not same:
-            ctx.violation({'kind': rec.get('kind', 'replay'), 'width': rec.get('width'), 'has_missing': rec.get('has_missing'),
-                           'decoder': rec.get('decoder'), 'case': case, 'compressed': out[0], 'uncompressed': out[1]})
-        return {'compressed': out[0], 'uncompressed': out[1], 'identical': same}
-    if 'vals' in case:
-        vals = [None if t == 'N' else int(t) for t in case['vals'].split(',')] if case['vals'] != '-' else []
+        run_e2e_cases(ctx, [('replay', case['template'], case['subsets'])], 1)
+    elif 'vals' in case and 'w' in case:
+        vals = parse_opt(case['vals'])
         kind = case.get('kind_col', 'num')
         c = (kind, case['w'], vals, case.get('desc', NUM_ID), None, '0110100110010110',
              [(case['wd'], case['base'])] if 'wd' in case else [])
         run_columns(ctx, [c], 'replay', 1)
-        return {'replayed': case, 'violations': len(ctx.violations)}
-    return {'error': 'unrecognised replay record'}
+    elif 'cmd' in case:
+        toks = case['cmd'].split(' ')
+        cmd = toks[0]
+        if cmd == 'colstr':
+            vals = [] if toks[3] == '-' else [None if t == 'N' else (b'' if t == 'e' else bytes.fromhex(t))
+                                              for t in toks[3].split(',')]
+            check_strings(ctx, [(int(toks[1]), vals)], 1)
+        elif cmd in ('decnum', 'decstr', 'specnum'):
+            kind = 'str' if cmd == 'decstr' else 'num'
+            bits = '' if toks[3] == '-' else toks[3]
+            check_streams(ctx, [(kind, int(toks[1]), int(toks[2]), bits, STR_ID if kind == 'str' else NUM_ID, None)], 1)
+        elif cmd == 'deccf':
+            bits = '' if toks[4] == '-' else toks[4]
+            check_streams(ctx, [('cf', int(toks[1]), int(toks[3]), bits, NUM_ID, int(toks[2]))], 1)
+        elif cmd == 'encref':
+            v = None if toks[3] == 'N' else int(toks[3])
+            io = work_refval((int(toks[1]), [v] if toks[2] == '1' else [v, (v or 0) + 1], '0110100110010110'))[0]
+            mo = lib.run_model([case['cmd']])[0]
+            ctx.compare(case, io, mo, kind='refval-enc-model')
+        elif cmd == 'decref':
+            bits = '' if toks[3] == '-' else toks[3]
+            io = impl_decode('ref', int(toks[1]), int(toks[2]), bits, descriptor(NUM_ID))[0]
+            mo = lib.run_model([case['cmd']])[0]
+            ctx.compare(case, io, mo, kind='refval-dec-model')
+        elif cmd == 'encnum' and 'users' in case:
+            import ast
+            from pybufrkit.coder import CoderState
+            from pybufrkit.bitops import get_bit_writer
+            users = ast.literal_eval(case['users'])
+            raws = parse_opt(toks[3])
+            refval = next((int(round(u * 10)) - r for u, r in zip(users, raws) if u is not None), 0)
+            st = CoderState(True, len(users), [[u] for u in users])
+            bw = get_bit_writer()
+            try:
+                env()['enc'].process_numeric_compressed(st, bw, descriptor(NUM_ID), int(toks[1]), 10, refval)
+                io = 'ok ' + bits_str(bw.bit_stream.bin)
+            except Exception as ex:
+                io = 'err %d' % lib.err_code(ex)
+            ctx.compare(case, io, lib.run_model([case['cmd']])[0], kind='col-num-scaled-model')
+        else:
+            return {'error': 'unrecognised command in replay record', 'cmd': case['cmd']}
+    else:
+        return {'error': 'unrecognised replay record'}
+    new = ctx.violations[before:]
+    return {'replayed': case, 'reproduced': bool(new) or bool(ctx.known_hits),
+            'violations': [{k: v for k, v in x.items() if k in ('kind', 'impl', 'model', 'what')} for x in new],
+            'known_findings': ctx.known_hits}
